@@ -43,6 +43,8 @@ pub struct TcpScript {
     pub target: String,
     /// cut the client-server link once this many upstream chunks have reached the target
     pub cut_after: Option<usize>,
+    /// the application closes its sending side right after its last write, without waiting for an answer
+    pub early: bool,
     /// "app" / "target": that side resets its connection (instead of closing it) once the upstream bytes have arrived
     pub reset: Option<String>,
 }
@@ -59,6 +61,8 @@ impl World {
     /// `mode`: the server's mode (the client gets tcp_and_udp when udp is asked for)
     #[allow(clippy::too_many_arguments)]
     pub fn start(protocol: &str, cipher: &str, server_password: &str, client_password: &str, users: &[(String, String)], mode: &str, ws: bool, link: bool, threads: usize, tls: Option<&str>) -> anyhow::Result<World> {
+        // as both `main`s do
+        let _ = tokio_rustls::rustls::crypto::aws_lc_rs::default_provider().install_default();
         let rt = tokio::runtime::Builder::new_multi_thread().worker_threads(threads.clamp(2, 16)).enable_all().build()?;
         let server_port = free_port();
         let client_port = free_port();
@@ -237,6 +241,24 @@ impl World {
                     }
                     "done".to_owned()
                 }
+                // a peer that starts a TLS handshake and never completes it: stays open while later flows run
+                "tls-stall" => {
+                    let Ok(mut c) = TcpStream::connect(("127.0.0.1", sp)).await else { return "connect-failed".to_owned() };
+                    let _ = c.write_all(&[0x16, 0x03, 0x01, 0x02, 0x00, 0x01, 0x00]).await;
+                    tokio::spawn(async move {
+                        tokio::time::sleep(Duration::from_secs(3)).await;
+                        drop(c);
+                    });
+                    "done".to_owned()
+                }
+                // not a TLS handshake at all
+                "tls-fail" => {
+                    let Ok(mut c) = TcpStream::connect(("127.0.0.1", sp)).await else { return "connect-failed".to_owned() };
+                    let _ = c.write_all(&junk).await;
+                    let mut b = [0u8; 64];
+                    let _ = tokio::time::timeout(Duration::from_millis(200), c.read(&mut b)).await;
+                    "done".to_owned()
+                }
                 "ws-fail" => {
                     let Ok(mut c) = TcpStream::connect(("127.0.0.1", sp)).await else { return "connect-failed".to_owned() };
                     let _ = c.write_all(b"GET /elsewhere HTTP/1.1\r\nHost: 127.0.0.1\r\n\r\n").await;
@@ -266,9 +288,11 @@ impl World {
                             drop(c);
                         }
                         "server-stall" | "server-half" => {
-                            // keep it open for a while, without completing anything, then drop
-                            tokio::time::sleep(Duration::from_millis(150)).await;
-                            drop(c);
+                            // keep it open, without completing anything, while later flows run
+                            tokio::spawn(async move {
+                                tokio::time::sleep(Duration::from_secs(2)).await;
+                                drop(c);
+                            });
                         }
                         _ => {
                             let _ = c.shutdown().await;
@@ -288,7 +312,10 @@ impl World {
                         let _ = c.write_all(&junk).await;
                         let _ = c.shutdown().await;
                     } else {
-                        tokio::time::sleep(Duration::from_millis(150)).await;
+                        tokio::spawn(async move {
+                            tokio::time::sleep(Duration::from_secs(2)).await;
+                            drop(c);
+                        });
                     }
                     "done".to_owned()
                 }
@@ -364,7 +391,7 @@ const PROMPT: Duration = Duration::from_millis(2500);
 /// where the server dialled, what arrived on each side, who saw end-of-stream, and whether the end
 /// was seen promptly after the side that ends the flow closed
 pub async fn tcp_flow(client_port: u16, sc: TcpScript, links: Arc<std::sync::Mutex<Vec<tokio::task::AbortHandle>>>) -> String {
-    let TcpScript { kind, host, up, down, target_closes_first, target, cut_after, reset } = sc;
+    let TcpScript { kind, host, up, down, target_closes_first, target, cut_after, reset, early } = sc;
     let (reset_app, reset_target) = (reset.as_deref() == Some("app"), reset.as_deref() == Some("target"));
     let Ok(listener) = TcpListener::bind("127.0.0.1:0").await else { return "no-loopback".to_owned() };
     let tport = listener.local_addr().unwrap().port();
@@ -536,7 +563,10 @@ pub async fn tcp_flow(client_port: u16, sc: TcpScript, links: Arc<std::sync::Mut
     let mut buf = vec![0u8; 65536];
     let mut eof = false;
     let mut eof_at = None;
-    if !target_closes_first && target == "up" && cut_after.is_none() && !reset_target {
+    if early && target == "up" {
+        let _ = app.shutdown().await;
+        app_closed_at = Some(std::time::Instant::now());
+    } else if !target_closes_first && target == "up" && cut_after.is_none() && !reset_target {
         // read the answer, then close first
         while got_down.len() < down.len() {
             match tokio::time::timeout(Duration::from_secs(4), app.read(&mut buf)).await {
@@ -575,6 +605,9 @@ pub async fn tcp_flow(client_port: u16, sc: TcpScript, links: Arc<std::sync::Mut
     if target != "up" {
         // nothing to dial: the application must see the end promptly and receive nothing
         return format!("dialed={} down={} eof={} prompt={}", dialed as u8, got_down.len(), eof as u8, within(Some(handshaken), eof_at));
+    }
+    if early {
+        return format!("dialed={} up={} eof={} target-eof={} prompt={}", dialed as u8, if s.got == want_up { "ok".to_owned() } else { format!("diff:{}of{}", s.got.len(), want_up.len()) }, eof as u8, s.eof as u8, within(app_closed_at, s.eof_at) & within(app_closed_at, eof_at));
     }
     if reset_target {
         return format!("dialed={} up={} end={} prompt={}", dialed as u8, if s.got == want_up { "ok" } else { "diff" }, eof as u8, within(s.closed_at, eof_at));
